@@ -335,6 +335,8 @@ def rule_use(ctx, res):
                       'reader: UTF-8 decode then unicode_to_p8scii',
                       'the .p8 reader no longer converts Unicode text to '
                       'P8SCII', f.loc)
+    from .c03 import rule_reader_lines
+    rule_reader_lines(ctx, res, 'R-C15-use')
     q = 'pico8.game.formatter.p8:P8Formatter.to_file'
     f = model.func(q)
     from .c03 import _is_utf8_of_conversion
